@@ -1029,6 +1029,25 @@ type revInfra struct {
 // staggerOf is the start offset of a caller: whole milliseconds plus 7 us per
 // position, so that every staggered caller lives on a timer lattice of its
 // own and no two callers' events can tie.
+// posOf is the position of a caller in the order of the full scenario.
+func (sc *RevScenario) posOf(w *World, rep int) int {
+	j := 0
+	for _, x := range sc.Worlds {
+		for r := 0; r < x.reps(); r++ {
+			if x == w && r == rep {
+				return j
+			}
+			j++
+		}
+	}
+	return -1
+}
+
+// cancelApplies: the scenario's cancellation applies to this caller.
+func (sc *RevScenario) cancelApplies(w *World, rep int) bool {
+	return sc.CancelOnly == 0 || sc.posOf(w, rep) == sc.CancelOnly-1
+}
+
 func (sc *RevScenario) staggerOf(w *World, rep int) time.Duration {
 	if len(sc.StaggerMs) == 0 {
 		return 0
@@ -1323,6 +1342,9 @@ func (sc *RevScenario) execInBubble(obs *RevObs, altSeed uint32, onlyWorld int, 
 			callCtx[ck] = cctx
 		} else if _, ok := callCtx[ck]; !ok {
 			callCtx[ck] = baseCtx
+			if !sc.cancelApplies(j.w, j.rep) {
+				callCtx[ck] = context.Background()
+			}
 		}
 	}
 	done := make(chan struct{}, len(jobs))
